@@ -52,7 +52,10 @@ def run(tier, seed, replay=None):
             c = copy.deepcopy(t); c["runs"][0]["obj"] += 1; ctl.append((c, ":Return.objective_is_not_f_of_returned_point"))
             worst = max(e[1] for e in r0["evals"]) if t["minimize"] else min(e[1] for e in r0["evals"])
             c = copy.deepcopy(t); c["runs"][0]["obj"] = worst; c["runs"][0]["fsol"] = worst; ctl.append((c, ":Return.worse_than_an_evaluated_candidate"))
-            c = copy.deepcopy(t); c["runs"][1]["evals"][1][1] += 1; ctl.append((c, ":Repeat.same_seed_different_run"))
+            # make the worst evaluation of the repeated run still worse: no other clause can notice that, only the comparison of the two runs
+            ev1 = t["runs"][1]["evals"]
+            j = max(range(len(ev1)), key=lambda k: ev1[k][1] if t["minimize"] else -ev1[k][1])
+            c = copy.deepcopy(t); c["runs"][1]["evals"][j][1] += 1 if t["minimize"] else -1; ctl.append((c, ":Repeat.same_seed_different_run"))
             c = copy.deepcopy(t); c["runs"][2]["evals"][-1][0] += "x"; ctl.append((c, ":Mirror.not_the_mirror_image"))
             break
     if len(ctl) < 5:
